@@ -4,7 +4,7 @@ from __future__ import annotations
 import ast
 
 from ..amatch import AM
-from ..flow import expand
+from ..flow import clone, expand
 from ..algebra import NotPolynomial, Poly, ToPoly
 from ..effects import Effects
 from ..report import AnalysisError
@@ -72,11 +72,11 @@ def rule_a(ctx):
             def visit_Name(self, n):
                 if isinstance(n.ctx, ast.Load) and n.id in local and n.id != RES and n.id not in seen:
                     seen.add(n.id)
-                    return self.visit(copy.deepcopy(local[n.id]))
+                    return self.visit(clone(local[n.id]))
                 return n
         if e is None:
             return [], None, None
-        e = expand(f.node, Sub().visit(copy.deepcopy(e)))
+        e = expand(f.node, Sub().visit(clone(e)))
         stages = []
         cur = e
         extra = None
